@@ -111,8 +111,11 @@ class InMemoryObjectStore(BaseObjectStore):
             raise ValueError(
                 f'Name "{name}" already in {self._cim_object_type} '
                 'object store')
-        # Add with deepcopy to completely isolate the copy in the repository
-        self._data[name] = deepcopy(cim_object)
+        # Add with deepcopy to completely isolate the copy in the repository.
+        # This includes the name: it becomes the key in the repository, and
+        # the caller keeps using its own name object (e.g. CreateInstance
+        # returns the instance path to the client).
+        self._data[deepcopy(name)] = deepcopy(cim_object)
 
     def update(self, name, cim_object):
         assert isinstance(cim_object, self._cim_object_type)
